@@ -181,6 +181,13 @@ def _inline_value(N, node, p, depth=0):
         # (only over a name that is free on this path, and only for `{% set %}`: a macro parameter bound to `t.inner_type`
         # shadows the caller's `t`, and the parameters of nested expansions of one macro share their names)
         return node
+    if id(node) in _PARAM_BOUND and isinstance(node, (N.Add, N.Sub, N.Mul)):
+        # an arithmetic argument of an expanded helper (`offset + t.length_field_type.bit_length` for its `first_offset`): the
+        # parameter is spelled as the argument, provided every name in it is free on this path (means the same in both scopes)
+        names = [x for x in node.find_all(N.Name)]
+        if names and all(p.binding(x.name) is None for x in names) and not any(True for _ in node.find_all(N.Call)) \
+                and not any(True for _ in node.find_all(N.Filter)):
+            return node
     return None
 
 
@@ -293,6 +300,11 @@ def _helper_call(N, e, macros):
     return None
 
 
+def _is_caller_call(N, e) -> bool:
+    return isinstance(e, N.Call) and isinstance(e.node, N.Name) and e.node.name == "caller" and not e.args and not e.kwargs \
+        and e.dyn_args is None and e.dyn_kwargs is None
+
+
 def render_paths(N, nodes, limit: int = 512, for_zero: bool = False, subst=None, prefix: str = "P", macros=None) -> typing.List[TPath]:
     """enumerate the static text paths of a node list.
     subst(expr_node) may return a literal replacement string for an expression (e.g. an operator held in a variable).
@@ -341,6 +353,43 @@ def render_paths(N, nodes, limit: int = 512, for_zero: bool = False, subst=None,
         names[key] = name
         return name, (name, key)
 
+    caller_stack: typing.List[typing.Any] = []
+
+    def expand_helper(mac, call, paths, caller_body):
+        nxt = []
+        inlining[0] += 1
+        try:
+            for p in paths:
+                bind = []
+                for i, a in enumerate(mac.args):
+                    val = None
+                    if i < len(call.args):
+                        val = call.args[i]
+                    else:
+                        kw = [k.value for k in call.kwargs if k.key == a.name]
+                        if kw:
+                            val = kw[0]
+                        else:
+                            j = i - (len(mac.args) - len(mac.defaults))
+                            if 0 <= j < len(mac.defaults):
+                                val = mac.defaults[j]
+                    if val is not None and not (isinstance(val, N.Name) and val.name == a.name):
+                        # the argument is evaluated in the caller's scope: inline the caller's bindings into it now
+                        bind.append((a.name, val))
+                        _PARAM_BOUND.add(id(val))
+                if caller_body is not None:
+                    caller_stack.append((caller_body, p.env))
+                try:
+                    inner = run(mac.body, [TPath(p.parts, p.conds, p.ph, p.env + tuple(bind), p.cnodes)])
+                finally:
+                    if caller_body is not None:
+                        caller_stack.pop()
+                for q in inner:
+                    nxt.append(TPath(q.parts, q.conds, q.ph, p.env, q.cnodes))
+        finally:
+            inlining[0] -= 1
+        return nxt
+
     def run(nodes, paths: typing.List[TPath]) -> typing.List[TPath]:
         for node in nodes:
             if j2front.assert_call(N, node) is not None and not isinstance(node, N.CallBlock):
@@ -352,35 +401,21 @@ def render_paths(N, nodes, limit: int = 512, for_zero: bool = False, subst=None,
                 for e in node.nodes:
                     if isinstance(e, N.TemplateData):
                         paths = [TPath(p.parts + (e.data,), p.conds, p.ph, p.env, p.cnodes) for p in paths]
-                    elif _helper_call(N, e, macros) is not None and inlining[0] < 3:
-                        mac, call = _helper_call(N, e, macros)
-                        nxt = []
-                        inlining[0] += 1
+                    elif _is_caller_call(N, e) and caller_stack:
+                        # `{{ caller() }}` inside a helper expanded from `{% call helper(..) %}body{% endcall %}`: the body, in the
+                        # scope of the call site
+                        body, site_env = caller_stack.pop()
                         try:
+                            nxt = []
                             for p in paths:
-                                bind = []
-                                for i, a in enumerate(mac.args):
-                                    val = None
-                                    if i < len(call.args):
-                                        val = call.args[i]
-                                    else:
-                                        kw = [k.value for k in call.kwargs if k.key == a.name]
-                                        if kw:
-                                            val = kw[0]
-                                        else:
-                                            j = i - (len(mac.args) - len(mac.defaults))
-                                            if 0 <= j < len(mac.defaults):
-                                                val = mac.defaults[j]
-                                    if val is not None and not (isinstance(val, N.Name) and val.name == a.name):
-                                        # the argument is evaluated in the caller's scope: inline the caller's bindings into it now
-                                        bind.append((a.name, val))
-                                        _PARAM_BOUND.add(id(val))
-                                inner = run(mac.body, [TPath(p.parts, p.conds, p.ph, p.env + tuple(bind), p.cnodes)])
-                                for q in inner:
+                                for q in run(body, [TPath(p.parts, p.conds, p.ph, site_env, p.cnodes)]):
                                     nxt.append(TPath(q.parts, q.conds, q.ph, p.env, q.cnodes))
                         finally:
-                            inlining[0] -= 1
+                            caller_stack.append((body, site_env))
                         paths = nxt
+                    elif _helper_call(N, e, macros) is not None and inlining[0] < 3:
+                        mac, call = _helper_call(N, e, macros)
+                        paths = expand_helper(mac, call, paths, None)
                     else:
                         nxt = []
                         work = list(paths)
@@ -451,6 +486,11 @@ def render_paths(N, nodes, limit: int = 512, for_zero: bool = False, subst=None,
                 paths = once + (paths if for_zero else [])
             elif j2front.is_assert_false(N, node):
                 paths = []  # {% assert False %}: generation fails here, no text is produced on this path
+            elif isinstance(node, N.CallBlock) and not node.args and _helper_call(N, node.call, macros) is not None and inlining[0] < 3 \
+                    and any(_is_caller_call(N, c) for c in _helper_call(N, node.call, macros)[0].find_all(N.Call)):
+                # `{% call helper(..) %}body{% endcall %}`: the helper's text with the body where it prints `caller()`
+                mac, call = _helper_call(N, node.call, macros)
+                paths = expand_helper(mac, call, paths, list(node.body))
             elif isinstance(node, (N.CallBlock, N.FilterBlock, N.Block)):
                 paths = run(node.body, paths)
             elif isinstance(node, N.Assign) and isinstance(node.target, N.Name):
